@@ -1,7 +1,7 @@
 """C07 - Layer precedence in differencing, backing and snapshot chains."""
 from __future__ import annotations
 
-from harness import hds, qcow2, vdi, vhdx, vmdk
+from harness import c09, hds, paths, qcow2, vdi, vhdx, vmdk
 
 MB = 1 << 20
 
@@ -36,10 +36,16 @@ def tasks(tier):
     out.append(("hds", dict(version=2, tracks=256, n_clusters=2, has_parent=True)))
     out.append(("vdi", dict(block_size=1 << 20, n_blocks=2, has_parent=True)))
     out.append(("qcow2", dict(cluster_bits=16, n_clusters=1, backing="file")))
+    # parent resolution over a symbolic file system (shared with C09)
+    for h, cfg in c09.tasks(tier):
+        if h != "envelope_tool":
+            out.append(("paths:" + h, cfg))
     return out
 
 
 def run(hname, cfg, tier, seed):
+    if hname.startswith("paths:"):
+        return getattr(paths, hname[6:] + "_task")("C07", cfg, tier, seed)
     if hname == "vhdx":
         return vhdx.read_task("C07", cfg, tier, seed)
     if hname == "partial_runs":
